@@ -15,7 +15,7 @@ ID = "C14"
 LEVEL = "exploration"
 TECHNIQUE = "exhaustive over all 4096 vocabulary positions, all legacy (mode, max_grid_size<=50) vocabularies and all n<m<=50 prefix pairs; Hypothesis id/token sequences; oracles = independently reconstructed layout + frozen golden list, inverse/round-trip laws, TokenError contract"
 RULE = (
-    "position case = vocabulary index i (all 4096); legacy case = (mode, n) for n in 1..50; prefix case = (n, m), n<m<=50; sequence "
+    "position case = vocabulary index i (all 4096); legacy case = (mode, n) for n in 1..50, also sequences of such constructions in one process in arbitrary order; prefix case = (n, m), n<m<=50; sequence "
     "case = (vocabulary, list of ids) run through decode->encode and encode->decode as list and as joined string; unknown case = a "
     "token outside the vocabulary or an id >= len. Non-trivial = position inside the coordinate block, n >= 2, sequences of length >= 2."
 )
@@ -145,6 +145,14 @@ def check_legacy(case: dict):
     return {"nt": n >= 2, "labels": [mode]}
 
 
+def check_legacy_sequence(case: dict):
+    """vocabularies must not depend on which other tokenizers were built before in the same process"""
+    for mode, n in case["seq"]:
+        check_legacy({"mode": mode, "n": n})
+    ns = [n for _, n in case["seq"]]
+    return {"nt": len(ns) >= 2 and any(a > b for a, b in zip(ns, ns[1:])), "labels": ["descending" if any(a > b for a, b in zip(ns, ns[1:])) else "ascending"]}
+
+
 def check_prefix(case: dict):
     n, m = case["n"], case["m"]
     a = list(_legacy("AOTP_UT_uniform", n).token_arr)
@@ -269,6 +277,9 @@ def subs(tier: str):
         Sub("corner-first", check_corner_first, "exhaustive", cases=_corner, exhaustive_flag=True),
         Sub("legacy-vocab", check_legacy, "exhaustive", cases=_legacy_cases, exhaustive_flag=True),
         Sub("uniform-prefix", check_prefix, "exhaustive", cases=_prefix_cases, exhaustive_flag=True),
+        Sub("legacy-construction-order", check_legacy_sequence, "hypothesis",
+            strategy=lambda: st.fixed_dictionaries({"seq": st.lists(st.tuples(st.sampled_from(MODES), st.integers(1, 50)).map(list), min_size=2, max_size=6)}),
+            examples=40 if q else 600),
         Sub("sequences", check_seq, "hypothesis", strategy=_seq, examples=120 if q else 3000),
         Sub("unknown", check_unknown, "hypothesis", strategy=_unknown, examples=80 if q else 1500),
     ]
